@@ -185,7 +185,7 @@ Proof. exact gen_time_formats. Qed.
        changeset state with the time as "... .422137422 Z" (k=0) or "... +00:00" (k=1). *)
 Theorem C19_decode_time_roundtrip : forall k t, valid t -> (k = 0 \/ k = 1 \/ (k = 2 /\ t_nsec t = 0)) ->
   decode_time time_formats (render_time k t) = Some t.
-Proof. intros k t V H. rewrite gen_time_formats_planet. exact (decode_time_planet k t V H). Qed.
+Proof. exact gen_reads_planet_times. Qed.
 Print Assumptions C19_decode_time_roundtrip.
 
 Theorem C19_decode_interval_roundtrip : forall comment seq t txn txnq ready active,
@@ -194,14 +194,16 @@ Theorem C19_decode_interval_roundtrip : forall comment seq t txn txnq ready acti
   decode_interval_gen (render_interval comment seq t txn txnq ready active)
   = Some (DOk {| i_seq := seq; i_time := t; i_txn := txn; i_txnq := txnq |}).
 Proof.
-  intros. rewrite decode_interval_gen_eq. f_equal. apply decode_interval_planet; assumption.
+  intros. rewrite decode_interval_gen_eq. f_equal. apply decode_interval_planet; try assumption.
+  exact gen_reads_planet_times.
 Qed.
 Print Assumptions C19_decode_interval_roundtrip.
 
 Theorem C19_decode_changeset_roundtrip : forall k seq t, (k = 0 \/ k = 1) -> valid t -> 0 <= seq < two64 ->
   decode_changeset_gen (render_changeset k seq t) = Some (DOk (seq, t)).
 Proof.
-  intros. rewrite decode_changeset_gen_eq. f_equal. apply decode_changeset_planet; assumption.
+  intros. rewrite decode_changeset_gen_eq. f_equal. apply decode_changeset_planet; try assumption.
+  exact gen_reads_planet_times.
 Qed.
 Print Assumptions C19_decode_changeset_roundtrip.
 
@@ -233,6 +235,22 @@ Proof. exact decode_changeset_no_garbage. Qed.
 Theorem C19_decode_time_real_day : forall fmts s t, decode_time fmts s = Some t ->
   1 <= t_day t <= days_in (t_mon t) (t_year t).
 Proof. exact decode_time_real_day. Qed.
+
+(* 4''. Tie by sampled behaviour: the translator also drives the exported entry points with a
+        recording transport on every run; the URLs requested for 16 sequence numbers x 4 kinds x
+        {state, data} + the current state files, and the sequence numbers returned for 9
+        (file name, number inside) pairs, are exactly what the model computes -- independently of
+        how the source spells the path (Sprintf, helper functions, concatenation). *)
+Theorem C19_sampled_urls_and_correction :
+  forallb sample_url_ok url_samples = true /\
+  forallb (fun '(n, k, r) => fetched_seq 3 n k =? r) fix_samples = true.
+Proof.
+  pose proof gen_url_samples as U. pose proof gen_fix_samples as F.
+  apply andb_prop in U. destruct U as [_ U].
+  apply andb_prop in F. destruct F as [F _]. apply andb_prop in F. destruct F as [F _].
+  apply andb_prop in F. destruct F as [_ F]. split; assumption.
+Qed.
+Print Assumptions C19_sampled_urls_and_correction.
 
 (* 5. The code before the repair violated 1 and 2 (C19/Orig.v models it loop by loop):
       with the files next to the split missing no amount of fuel suffices, and t at or before
